@@ -78,6 +78,49 @@ def hasher_rules(ctx, P):
     ctx.check(P + ':hasher:carry-set-only-after-cr', 'R-seq', 'last_was_cr is set only directly after a lone CR literal was fed (CR in the last position of the chunk)', okset and len(sets) == 1, function=b.path)
 
 
+NR = 'normalize_lines::NormalizedReader::<R>::'
+
+
+def reader_rules(ctx, P):
+    """The window reader defers a CR that is the last octet of a full window and settles it at the start of the next call."""
+    b = ctx.body(NR + 'cleanup_buffer')
+    if b is not None:
+        rets = b.returns()
+        sw = [i for i, t in b.switches() if has_origin(b.switch_origins(i), r'param:3$')]
+        ok, wit = must_pass(b, rets, sw) if sw else (False, None)
+        ctx.check(P + ':reader:carried-octet-examined', 'R-dom', 'cleanup_buffer examines the carried last octet of the previous window on every path (a deferred CR is settled even when the next read is empty)',
+                  ok and bool(sw), function=b.path, witness=fmt_path(b, wit) if wit else None)
+        # deferral: `end = read - 1` only under (window full && last octet == CR)
+        subs = [i for i, k, s_ in b.stmts(lambda s: s['r']['k'] == 'bin' and s['r']['op'].startswith('Sub') and any('k' in o and o['k'].get('v') == 1 for o in s['r']['o'][1:]))
+                if has_origin(b.operand_origins(b.blocks[i]['s'][k]['r']['o'][0]), r'param:2$')]
+        g1 = [g for g, _ in guard_switches(b, subs, [r'const:13:u8$', r'field:NormalizedReader\.in_buffer$'])] if subs else []
+        g2 = [g for g, _ in guard_switches(b, subs, [r'param:2$', r'op:Eq$'])] if subs else []
+        ok1, _ = must_pass(b, subs, g1) if g1 else (False, None)
+        ok2, _ = must_pass(b, subs, g2) if g2 else (False, None)
+        ctx.check(P + ':reader:defer-only-final-cr-of-full-window', 'R-dom', 'the last octet of a window is held back only when the window is full and that octet is CR', ok1 and ok2 and len(subs) == 1, function=b.path)
+        puts = [i for i, t in b.calls(r'BufMut::put_u8$') if any('k' in a and a['k'].get('v') == 13 for a in t['args'][1:]) or has_origin(b.operand_origins(t['args'][1]), r'const:13:u8$')]
+        ctx.check(P + ':reader:settles-with-cr', 'R-table', 'a held-back CR that is not followed by LF is emitted as CR', len(puts) == 1, function=b.path)
+    b = ctx.body(NR + 'fill_buffer')
+    if b is not None:
+        fills = call_blocks(b, r'util::fill_buffer$')
+        cl = b.calls(r'NormalizedReader::<R>::cleanup_buffer$')
+        good = False
+        dom = b.dominators()
+        defs = single_defs(b)
+        for i, t in cl:
+            a = t['args'][2]
+            if not has_origin(b.operand_origins(a), r'field:NormalizedReader\.in_buffer$'):
+                continue
+            # the carried octet is loaded before the window is refilled: its defining statement lies in a block from which the refill is still ahead
+            k, v = resolve_value(b, a, defs)
+            d = defs.get(a['l']) if 'l' in a else None
+            while d is not None and d[1].get('k') != 'call' and d[1]['r']['k'] == 'use' and 'l' in d[1]['r']['o'][0] and not d[1]['r']['o'][0]['pr'] and d[1]['r']['o'][0]['l'] in defs:
+                d = defs[d[1]['r']['o'][0]['l']]
+            if d is not None and fills:
+                good = all(f_ in b.reach_from([d[0]]) and d[0] not in b.reach_from([b.blocks[f_]['t']['t']]) for f_ in fills)
+        ctx.check(P + ':reader:carried-octet-read-before-refill', 'R-seq', 'fill_buffer takes the last octet of the previous window before it overwrites the window', good and len(fills) == 1, function=b.path)
+
+
 def one_batch_routine(ctx, P):
     users = sorted(p for p, r in ctx.f.bodies.items() if '::tests::' not in p and ctx.wrap(r).calls(r'normalize_lines::replace_newlines$'))
     for u in users:
@@ -89,5 +132,6 @@ def one_batch_routine(ctx, P):
 def run(ctx):
     P = 'C14'
     hasher_rules(ctx, P)
+    reader_rules(ctx, P)
     one_batch_routine(ctx, P)
     sig.text_mode_selection(ctx, P)
